@@ -71,7 +71,7 @@ _rect_task(4, 4, "vec", tier="thorough")
 
 
 def _rect_history(mutation):
-    @task("C09", "Rect.history[is_dominated, m=2, K=2, slack=zero: construct, use, %s, use]" % mutation)
+    @task("C09", "Rect.history[is_dominated, m=2, K=2, slack=zero; construct, use, %s, use]" % mutation)
     def _t(t):
         """The verdict refers to the bounds the regions display NOW: both regions are built by the real constructor, the predicate
         is used once, the first region is changed by the real `%s`, and the predicate is used again -- the second result must be
